@@ -507,6 +507,50 @@ def non_unique(repo):
     return out
 
 
+def string_buffer(repo):
+    """exppp print-to-string mode: prep_string() / exp_output()"""
+    t = _strip_comments(_read(repo, "src/exppp/exppp.c"))
+    big = _define(t, "BIGBUFSIZ", "exppp.c")
+    ps = _body(t, r"\bint\s+prep_string\s*\(\s*\)\s*\{", "prep_string")
+    m = re.search(r"exppp_buf\s*=\s*exppp_bufp\s*=\s*\(\s*char\s*\*\s*\)\s*malloc\s*\(\s*([^;]+?)\s*\)\s*;", ps)
+    r = re.search(r"exppp_buflen\s*=\s*exppp_maxbuflen\s*=\s*([^;]+);", ps)
+    if not m or not r:
+        raise ValueError("prep_string: allocation of the string buffer not recognised")
+    alloc, room = _eval(m.group(1), {"BIGBUFSIZ": big}, "prep_string malloc"), _eval(r.group(1), {"BIGBUFSIZ": big}, "prep_string room")
+    eo = _body(t, r"\bvoid\s+exp_output\s*\(\s*char\s*\*\s*buf\s*,\s*unsigned\s+int\s+len\s*\)\s*\{", "exp_output")
+    g = re.search(r"if\s*\(\s*len\s*>\s*exppp_buflen\s*\)\s*\{(.*?)\}\s*memcpy\s*\(\s*exppp_bufp\s*,\s*buf\s*,\s*len\s*\+\s*(\d+)\s*\)\s*;\s*exppp_bufp\s*\+=\s*len\s*;\s*exppp_buflen\s*-=\s*len\s*;", eo, re.S)
+    if not g:
+        raise ValueError("exp_output: string branch not recognised")
+    inner = g.group(1)
+    if re.search(r"\breturn\s*;", inner) and "len" not in re.sub(r"\breturn\s*;", "", inner):
+        policy = ".drop"
+    elif re.search(r"len\s*=\s*exppp_buflen\s*;", inner):
+        policy = ".truncate"
+    else:
+        raise ValueError("exp_output: what happens to a chunk that does not fit is not recognised")
+    return alloc, room, policy, int(g.group(2))
+
+
+def select_search(repo):
+    """EXP_resolve_op_dot_fuzzy / EXP_resolve_op_group_fuzzy: are visited selects marked with an id that stays fixed during
+    one search (a parameter), rather than with the global counter that ENTITYfind_inherited_* increment?"""
+    t = _strip_comments(_read(repo, "src/express/expr.c"))
+    ok = True
+    for fn in ("EXP_resolve_op_dot_fuzzy", "EXP_resolve_op_group_fuzzy"):
+        m = re.search(r"static\s+int\s+" + fn + r"\s*\(([^)]*)\)\s*\{", t)
+        if not m:
+            raise ValueError(f"expr.c: {fn} not found")
+        b = _body(t, r"static\s+int\s+" + fn + r"\s*\([^)]*\)\s*\{", fn)
+        p = re.search(r"int\s+(\w+)\s*$", m.group(1).strip())
+        cmp_ = re.search(r"if\s*\(\s*selection->search_id\s*==\s*(\w+)\s*\)\s*\{\s*return\s+0\s*;", b)
+        mark = re.search(r"selection->search_id\s*=\s*(\w+)\s*;", b)
+        if not cmp_ or not mark:
+            raise ValueError(f"expr.c: {fn}: visited test / mark not recognised")
+        first_rec = b.find(fn + "(")
+        ok = ok and bool(p) and cmp_.group(1) == p.group(1) and mark.group(1) == p.group(1) and mark.start() < first_rec
+    return ok
+
+
 def _opt(v):
     return "none" if v is None else f"(some {v})"
 
@@ -522,6 +566,8 @@ def extract(repo):
     fcap, fext, fapp, fguard = exppp_filename(repo)
     inh_first, na_first = recursion_marks(repo)
     nu = non_unique(repo)
+    sb_alloc, sb_room, sb_policy, sb_extra = string_buffer(repo)
+    sel_stable = select_search(repo)
     L = []
     A = L.append
     A("-- GENERATED by tools/extract.d/c06_buffers.py from src/express/lexact.c, src/express/generated/expparse.c,")
@@ -601,6 +647,11 @@ def extract(repo):
     A("def nonUniqueCfgs : List (String × NonUniqueCfg) := [")
     A(",\n".join(f'  ("{tool}", {{ cap := {cap}, openLen := {op}, sepLen := {sep}, zeroLen := {zero}, closeLen := {cl}, kinds := {kinds} }})'
                   for tool, cap, op, sep, zero, cl, kinds in nu) + "]")
+    A("")
+    A("/-- exppp print-to-string mode (`prep_string`, `exp_output`): bytes malloc'ed, room announced, what happens to a chunk that does not fit, `memcpy( …, len + extra )` -/")
+    A(f"def strBufCfg : StrBufCfg := {{ allocated := {sb_alloc}, room := {sb_room}, policy := {sb_policy}, copyExtra := {sb_extra} }}")
+    A("/-- `EXP_resolve_op_dot_fuzzy` / `EXP_resolve_op_group_fuzzy` mark visited selects, before recursing, with an id that is fixed for the search -/")
+    A(f"def selectSearchMarkStable : Bool := {str(sel_stable).lower()}")
     A("")
     A("end StepModel.Generated.C06")
     return {"C06Buffers.lean": "\n".join(L) + "\n"}
